@@ -208,6 +208,10 @@ func (n *SimNet) RoundTrip(req *http.Request) (*http.Response, error) {
 	case "empty":
 		resp.Body = io.NopCloser(bytes.NewReader(nil))
 		resp.ContentLength = 0
+	case "contentlength":
+		// the response announces a body length it does not have (the header is the peer's to choose)
+		resp.ContentLength = argN
+		resp.Header.Set("Content-Length", fmt.Sprint(argN))
 	case "oversize":
 		b, _ := io.ReadAll(resp.Body)
 		resp.Body = io.NopCloser(io.MultiReader(bytes.NewReader(b), bytes.NewReader(bytes.Repeat([]byte("A"), int(argN)))))
